@@ -284,7 +284,16 @@ def style_job(job):
 
     def tab(d, c):
         return d.sheets[where[c][0]].tables[where[c][1]]
-    if twin:
+    if twin == "bg_color/split":
+        # fills whose decimal digits run together to the same string: (1, 23, 4) and (12, 3, 4) - the hard case for a de-duplication key
+        from numbers_parser import RGB
+        pa, pb = [((1, 23, 4), (12, 3, 4)), ((11, 1, 1), (1, 11, 1)), ((2, 55, 25), (25, 5, 25)), ((1, 0, 10), (10, 1, 0)), ((1, 1, 11), (11, 1, 1)),
+                  ((21, 2, 12), (2, 12, 12))][idx % 6]
+        sets["A"]["bg_image"] = None
+        sets["A"]["bg_color"] = RGB(*pa)
+        sets["B"] = dict(sets["A"])
+        sets["B"]["bg_color"] = RGB(*pb)
+    elif twin:
         # near twins: B differs from A in exactly one attribute - the hard case for anything that shares or de-duplicates style records
         other = sets["B"]
         if twin == "bg_image":
@@ -510,7 +519,9 @@ def run(ctx):
     for j, h in enumerate(twins):
         for k, a in enumerate(ATTRS):
             sjobs.append((100000 + j * 100 + k, [dict(o) for o in h], ctx.seed * 7 + j * 100 + k, ctx.scratch, a))
-    ctx.extra["twin_style_cases"] = len(twins) * len(ATTRS)
+    for j in range(max(len(twins), 12)):
+        sjobs.append((200000 + j, [dict(o) for o in twins[j % len(twins)]], ctx.seed * 7 + j, ctx.scratch, "bg_color/split"))
+    ctx.extra["twin_style_cases"] = len(twins) * len(ATTRS) + max(len(twins), 12)
     # longer directed histories of Styles.tla with four attribute sets: both cells styled, saved, reopened, then two NEW styles applied and
     # saved again (style records allocated after the document has been through a file; cells in one or in two tables, see `layout`)
     for j in range(9 if q else 90):
